@@ -17,7 +17,8 @@ let run () = iter_lines (fun line ->
   match split_on '|' (String.sub line 2 (String.length line - 2)) with
   | [head; gen; pk; same; vk] ->
     (match split_on ' ' head with
-     | [fmt; esc; upd; expr_hex; code; out] ->
+     | [fmt; esc; upd; expr_hex; code; out; title_hex] ->
+       let given_title = (match bytes_of_hex title_hex with [] -> None | t -> Some t) in
        let cram = (fmt = "c") in
        let md = if esc = "a" then Ascii else Unicode in
        let outb = bytes_of_hex out in
@@ -47,7 +48,7 @@ let run () = iter_lines (fun line ->
              | [] -> List.rev (List.rev cur :: acc)
              | c :: r -> if int_of_n c = 10 then split [] (List.rev cur :: acc) r else split (c :: cur) acc r in split [] [] (bytes_of_hex expr_hex)) in
          let cmd, conts = (match expr_lines with c :: r -> (c, r) | [] -> ([], [])) in
-         let title = (match dl with t :: _ when not (starts_with_str t "  ") -> Some t | _ -> None) in
+         let title = given_title in
          let model = render_cram (gen_cram_doc md title cmd conts lines (n_of_int (int_of_string code))) in
          if model <> dl then report "DIFF:generated-document" "the generated Cram document is not the rendering of the model's test block" line
        end;
@@ -59,7 +60,7 @@ let run () = iter_lines (fun line ->
              | [] -> List.rev (List.rev cur :: acc)
              | c :: r -> if int_of_n c = 10 then split [] (List.rev cur :: acc) r else split (c :: cur) acc r in split [] [] (bytes_of_hex expr_hex)) in
          let cmd, conts = (match expr_lines with c :: r -> (c, r) | [] -> ([], [])) in
-         let title = (match dl with t :: _ when starts_with_str t "# " -> Some (List.tl (List.tl t)) | _ -> None) in
+         let title = given_title in
          let model = render_md (gen_md_doc md title cmd conts lines (n_of_int (int_of_string code))) in
          if model <> dl then report "DIFF:generated-document" "the generated Markdown document is not the rendering of the model's title and test block" line
        end;
